@@ -7,13 +7,38 @@ from wesym.contracts import ipfslog, orbit, seqchan
 import c03
 
 
+import functools
+from wesym import coop
+from wesym.values import Native, Iface
+
+
+def _untilnow_inst(pre, I):
+    # the until_now RPC relay runs under the symbolic scheduler; the gRPC server stream is a recorder
+    coop.install(I, preemptions=pre)
+
+    def mk_stream(I, args, ins):
+        return Iface(-90, Native('mdstream', ctx=args[0], sent=[], as_iface=True))
+
+    def send(I, args, ins):
+        sp = getattr(I, 'sync_point', None)
+        if sp is not None:
+            sp('stream.Send', ins)
+        args[0].sent.append(args[1])
+        return None
+    I.intrinsics['verif_metadataListStream'] = mk_stream
+    I.intrinsics['verif_streamSentCount'] = lambda I, a, ins: len(a[0].v.sent)
+    I.intrinsics['verif_streamSentAt'] = lambda I, a, ins: a[0].v.sent[a[1] if isinstance(a[1], int) else I.concretize(a[1], 'sent-index')]
+    I.methods[('mdstream', 'Send')] = send
+    I.methods[('mdstream', 'Context')] = lambda I, a, ins: a[0].ctx
+
+
 def main():
     t = tier()
     N = 4 if t == 'quick' else 7
     chk = c03.root_check('C13', ['C13/zz_verif_c13.go', 'C13/zz_verif_c13b.go', 'C08/zz_verif_c08.go'], extra_installers=[seqchan.install, orbit.install_relay],
                          extra_pkgs=[MOD + '/internal/queue', 'container/heap', 'container/list'])
     P = MOD + '.'
-    chk.load([P + 'VerifC13Range', P + 'VerifC13Iterate', P + 'VerifC13Witness', P + 'VerifC13Params', P + 'VerifC13Source', P + 'VerifC13MsgSource'])
+    chk.load([P + 'VerifC13Range', P + 'VerifC13Iterate', P + 'VerifC13Witness', P + 'VerifC13Params', P + 'VerifC13Source', P + 'VerifC13MsgSource', P + 'VerifC13UntilNow'])
     jobs = []
     for n in range(0, N + 1):
         jobs.append(Job(P + 'VerifC13Range', (n,)))
@@ -23,6 +48,9 @@ def main():
         jobs.append(Job(P + 'VerifC13Source', (n,), cfg={'timeout_ms': 60000}))
     for n in ((1, 2) if t == 'quick' else (1, 2, 3)):
         jobs.append(Job(P + 'VerifC13MsgSource', (n,), cfg={'timeout_ms': 60000, 'dec_as_term': True}))
+    for (n, pre) in ([(0, 1), (1, 2), (2, 1)] if t == 'quick' else [(0, 1), (1, 2), (2, 2), (3, 1)]):
+        jobs.append(Job(P + 'VerifC13UntilNow', (n,), cfg={'timeout_ms': 60000, 'unwind': 12}, installers=[functools.partial(_untilnow_inst, pre)], max_paths=300000,
+                        label='VerifC13UntilNow(%d)[pre<=%d]' % (n, pre)))
     jobs.append(Job(P + 'VerifC13Witness', (2,), witness=True))
     res = chk.run_jobs(jobs)
     finish(chk, res, t,
@@ -31,7 +59,7 @@ def main():
                        'Entry identifiers and the since/until identifiers are free opaque byte strings (pairwise distinct '
                        'entries); since/until range over nil, every entry id and an unknown id; reverse and the five '
                        'parameter flags are free. Every assertion is decided by the solver for all values on its path.',
-           bounds={'entries_n': '0..%d' % N, 'ids': 'opaque byte strings of any length >= 1', 'order_source': 'MetadataStore.ListEvents on logs of 1..3 (4) events under every arrival order (log contract)', 'message_store': 'MessageStore.ListEvents on logs of 1..2 (3) messages of one sender whose key is known, every arrival order', 'outside': 'lists longer than the bound; the GroupMetadataList/GroupMessageList RPC relay; OrbitDB replication itself'},
+           bounds={'entries_n': '0..%d' % N, 'ids': 'opaque byte strings of any length >= 1', 'order_source': 'MetadataStore.ListEvents on logs of 1..3 (4) events under every arrival order (log contract)', 'message_store': 'MessageStore.ListEvents on logs of 1..2 (3) messages of one sender whose key is known, every arrival order', 'until_now_rpc': 'GroupMetadataList with until_now on logs of 0..2 (3) events under the symbolic scheduler (handler, listing goroutine, forwarding goroutine), preemption bound 2', 'outside': 'lists longer than the bound; the GroupMetadataList/GroupMessageList RPC relay; OrbitDB replication itself'},
            assumptions=['log entries have pairwise distinct non-empty CIDs (content addressing)',
                         'cid.Cid.Bytes() is injective in the CID (contract)'],
            trusted=['go/ssa lowering (x/tools v0.50.0)', 'wesym interpreter', 'z3 5.1.0; final queries re-decided by cvc5 1.0 and z3 4.8.12'])
